@@ -9,6 +9,7 @@ import (
 	"testing/synctest"
 	"time"
 
+	"github.com/jcmturner/gokrb5/v8/messages"
 	"github.com/jcmturner/gokrb5/v8/service"
 	"github.com/jcmturner/gokrb5/v8/types"
 )
@@ -83,6 +84,7 @@ func TestC02(t *testing.T) {
 	c02Sequential(t, m, v, rng)
 	c02Schedules(m, v, rng)
 	c02Stress(v, rng)
+	c02StressAPREQ(m, v, rng)
 	c02Cleaner(t, v)
 	v.ModelAsks = m.N
 	v.Write(t)
@@ -103,7 +105,8 @@ func runHistory(t *testing.T, ops []rcOp, d time.Duration) (toks []string, resul
 		// the retention period set as GetReplayCache(d) sets it for the process-wide cache
 		c := service.NewCacheForVerifMaxAge(d)
 		t0 := time.Now()
-		stamps := []time.Time{t0.Add(-d), t0.Add(1234 * time.Microsecond), t0.Add(d)}
+		// (the fourth: as old as the skew allows less the microseconds it carries: cusec = 999999)
+		stamps := []time.Time{t0.Add(-d), t0.Add(1234 * time.Microsecond), t0.Add(d), t0.Add(-d + 999999*time.Microsecond)}
 		for _, op := range ops {
 			switch op.kind {
 			case 's':
@@ -246,6 +249,11 @@ func c02Sequential(t *testing.T, m *Model, v *Verdict, rng *RNG) {
 	rec(nil)
 	// directed: the late-in-window history (ctime = now + d, clean-up after d, re-present)
 	c02Check(t, m, v, []rcOp{{kind: 'p', p: rcPres{0, 2, 0}}, {kind: 's', dt: d + time.Second}, {kind: 'c', cleanD: d}, {kind: 'p', p: rcPres{0, 2, 0}}}, d, "late-window")
+	// directed: an authenticator whose last moment in the window is given by its microseconds: clean-ups half a
+	// second and 999 ms after it was accepted must keep it, it is refused when presented again
+	for _, dt := range []time.Duration{500 * time.Millisecond, 999 * time.Millisecond, 999999 * time.Microsecond} {
+		c02Check(t, m, v, []rcOp{{kind: 'p', p: rcPres{0, 3, 0}}, {kind: 's', dt: dt}, {kind: 'c', cleanD: d}, {kind: 'p', p: rcPres{0, 3, 0}}}, d, "sub-second-window")
+	}
 	// directed: service A, then B, then A
 	c02Check(t, m, v, []rcOp{{kind: 'p', p: rcPres{0, 1, 0}}, {kind: 'p', p: rcPres{0, 1, 1}}, {kind: 'p', p: rcPres{0, 1, 0}}}, d, "two-services")
 	// directed: near-miss clients
@@ -264,9 +272,9 @@ func c02Sequential(t *testing.T, m *Model, v *Verdict, rng *RNG) {
 			case 0:
 				ops = append(ops, rcOp{kind: 'c', cleanD: d})
 			case 1:
-				ops = append(ops, rcOp{kind: 's', dt: []time.Duration{time.Second, d / 3, d, d + time.Microsecond}[rng.Intn(4)]})
+				ops = append(ops, rcOp{kind: 's', dt: []time.Duration{time.Second, d / 3, d, d + time.Microsecond, 400 * time.Millisecond}[rng.Intn(5)]})
 			default:
-				ops = append(ops, rcOp{kind: 'p', p: rcPres{rng.Intn(len(rcClients)), rng.Intn(3), rng.Intn(2)}})
+				ops = append(ops, rcOp{kind: 'p', p: rcPres{rng.Intn(len(rcClients)), rng.Intn(4), rng.Intn(2)}})
 			}
 		}
 		c02Check(t, m, v, ops, d, "random")
@@ -397,6 +405,56 @@ func c02Stress(v *Verdict, rng *RNG) {
 		}
 	}
 	v.Case("stress", "")
+}
+
+// c02StressAPREQ: the same AP-REQ presented to service.VerifyAPREQ by several goroutines at once (each with its own
+// decoded copy, as concurrent connections have): exactly one presentation is accepted. This goes through the
+// whole verification, not only the cache: checking and recording have to be one step there too.
+func c02StressAPREQ(m *Model, v *Verdict, rng *RNG) {
+	rounds := 150
+	if Thorough() {
+		rounds = 2000
+	}
+	for r := 0; r < rounds; r++ {
+		c := baseCase([]int32{18, 17, 23}[r%3])
+		c.cname = []string{fmt.Sprintf("stress-%d-%d", Seed(), r)}
+		c.decodePAC = r%2 == 0
+		if c.decodePAC {
+			c.pac = "valid"
+		}
+		_, b, err := mintAPReq(m, rng, c, time.Now())
+		if err != nil {
+			continue
+		}
+		s, _ := settingsFor(c)
+		const workers = 8
+		var acc int64
+		var wg sync.WaitGroup
+		start := make(chan struct{})
+		for g := 0; g < workers; g++ {
+			wg.Add(1)
+			go func() {
+				defer wg.Done()
+				var a messages.APReq
+				if a.Unmarshal(b) != nil {
+					return
+				}
+				<-start
+				Protect(func() {
+					if ok, _, _ := service.VerifyAPREQ(&a, s); ok {
+						atomic.AddInt64(&acc, 1)
+					}
+				})
+			}()
+		}
+		close(start)
+		wg.Wait()
+		if acc != 1 {
+			v.Violate("failing-input", "c02:stress-verify:accepted-"+fmt.Sprint(min(acc, 2)), "the same AP-REQ presented to VerifyAPREQ by eight goroutines at once: not exactly one presentation accepted", map[string]string{"round": itoa(r), "accepted": fmt.Sprint(acc), "etype": itoa(c.et), "request": X(b)})
+			break
+		}
+	}
+	v.Case("stress-verify", "concurrent VerifyAPREQ of one request")
 }
 
 func init() {
